@@ -637,7 +637,7 @@ class SimulationBuilder:
         if value is None:
             return
 
-        array = self.get_input(variable.name, str(period_str))
+        array = self.get_input(variable.name, str(periods.period(period_str)))
 
         if array is None:
             array_size = self.get_count(entity.plural)
